@@ -352,9 +352,9 @@ pub open spec fn sharded_frame(old: World, fin: World, root: PathV, n: usize, na
                 ('C12 C11 C01 C19:primary-candidate-is-probed-first-then-the-secondary',
                  'r.is_ok() && r.unwrap().is_some() ==> !r.unwrap().unwrap().can_write() && ((old(w).files.contains_key(%s) && r.unwrap().unwrap().ino() == old(w).files[%s]) '
                  '|| (!old(w).files.contains_key(%s) && old(w).files.contains_key(%s) && r.unwrap().unwrap().ino() == old(w).files[%s]))' % (P1, P1, P1, P2, P2)),
-                ('C12 C11 C05:miss-means-absent-from-both-candidates',
+                ('C12 C11 C05 C18:miss-means-absent-from-both-candidates',
                  'r.is_ok() && r.unwrap().is_none() ==> !old(w).files.contains_key(%s) && !old(w).files.contains_key(%s)' % (P1, P2)),
-                ('C11:present-entry-is-found', 'r.is_ok() && (old(w).files.contains_key(%s) || old(w).files.contains_key(%s)) ==> r.unwrap().is_some()' % (P1, P2)),
+                ('C11 C18:present-entry-is-found', 'r.is_ok() && (old(w).files.contains_key(%s) || old(w).files.contains_key(%s)) ==> r.unwrap().is_some()' % (P1, P2)),
             ]
         else:
             ens += [
@@ -362,7 +362,7 @@ pub open spec fn sharded_frame(old: World, fin: World, root: PathV, n: usize, na
                 ('C12 C11 C09:touch-marks-the-primary-copy-else-the-secondary',
                  'r == Ok::<bool, Error>(true) ==> (old(w).files.contains_key(%s) && final(w).accessed(%s)) || (!old(w).files.contains_key(%s) && old(w).files.contains_key(%s) && final(w).accessed(%s))'
                  % (P1, P1, P1, P2, P2)),
-                ('C05 C11:absence-is-reported-as-false', 'r == Ok::<bool, Error>(false) ==> !old(w).files.contains_key(%s) && !old(w).files.contains_key(%s)' % (P1, P2)),
+                ('C05 C11 C18:absence-is-reported-as-false', 'r == Ok::<bool, Error>(false) ==> !old(w).files.contains_key(%s) && !old(w).files.contains_key(%s)' % (P1, P2)),
             ]
         g.contract(requires=[('', 'old(w).inv() && self.wf()')], ensures=ens)
         g.body_start('broadcast use group_sharded;\n        proof { lemma_shard_ids(key.hash, key.secondary_hash, self.spec_n()); }')
